@@ -11,7 +11,7 @@ from __future__ import annotations
 import json
 import random
 
-from ..common import MachineryError, Verdict, imp, load_eolib_stubbed, require, run_tlc, scratch, seed, snapshot_repo
+from ..common import MachineryError, Verdict, imp, load_eolib_stubbed, require, run_apalache, run_tlc, scratch, seed, snapshot_repo
 from ..trace import validate
 from .. import common
 
@@ -98,6 +98,13 @@ def run(tier, corrupt=False):
            "model_runs": [{"module": "MC_Sequencer", "cfg": cfg, "distinct_states": r.distinct,
                            "properties": ["TypeOK", "CounterTracksServed", "TwoPeers", "Lockstep", "UpdateKeepsCounter"],
                            "action_counts": {a: r.coverage.get(a) for a in ("DoNext", "DoSet")}}]}
+    # unbounded histories: IndInv (counter = served mod 10, every number so far in lockstep) is inductive (Apalache)
+    ok0, _, w0 = run_apalache("Apa_Sequencer", "IndInv", init="Init", length=0)
+    ok1, _, w1 = run_apalache("Apa_Sequencer", "IndInv", init="IndInit", length=1)
+    okn, _, _ = run_apalache("Apa_Sequencer", "NotInductive", init="IndInit", length=1)
+    require(ok0 and ok1, "Apalache: IndInv of Apa_Sequencer is not inductive (spec problem)")
+    require(not okn, "Apalache leg vacuous: a non-inductive invariant was accepted")
+    cov["apalache"] = [{"theorem": "IndInv inductive: Init => IndInv, IndInv /\\ Next => IndInv' (unbounded histories, arbitrary start values)", "wall_s": round(w0 + w1, 1)}]
     with scratch("c13-") as tmp:
         load_eolib_stubbed(snapshot_repo(tmp))
         ss = imp("eolib.packet.sequence_start")
